@@ -11,6 +11,7 @@ mod gen_enc;
 mod gen_bind;
 mod kdf;
 mod fresh;
+mod secrets;
 mod gen_range;
 mod range;
 mod enc;
@@ -39,6 +40,8 @@ pub fn exec(op: &str, args: &[&str]) -> String {
         "ae" => enc::op_ae(args),
         "kdf" => kdf::op_kdf(args),
         "fresh" => fresh::op_fresh(args),
+        "drop" => secrets::op_drop(args),
+        "debug" => secrets::op_debug(args),
         _ => "bad-op".to_string(),
     }
 }
